@@ -14,6 +14,7 @@ import (
 	"encoding/json"
 	"errors"
 	"fmt"
+	"hash/crc32"
 	"io"
 	"net/http"
 	"net/textproto"
@@ -199,7 +200,28 @@ func RLEDecompress(b []byte) ([]byte, error) {
 	return out, nil
 }
 
+// CRCCompress is the harness's integrity-checked identity algorithm: magic "CK", the bytes,
+// and their CRC-32 (big endian). Its streaming decompressor (package world) hands out the
+// bytes as they come and reports a mismatch only from Close - as a connect.Decompressor may.
+func CRCCompress(b []byte) []byte {
+	out := append([]byte{'C', 'K'}, b...)
+	return binary.BigEndian.AppendUint32(out, crc32.ChecksumIEEE(b))
+}
+
+// CRCDecompress inverts CRCCompress.
+func CRCDecompress(b []byte) ([]byte, error) {
+	if len(b) < 6 || b[0] != 'C' || b[1] != 'K' {
+		return nil, errors.New("crc: bad magic")
+	}
+	body := b[2 : len(b)-4]
+	if crc32.ChecksumIEEE(body) != binary.BigEndian.Uint32(b[len(b)-4:]) {
+		return nil, errors.New("crc: checksum mismatch")
+	}
+	return append([]byte(nil), body...), nil
+}
+
 var comps = map[string]*Comp{
+	"crc":  {Name: "crc", Compress: CRCCompress, Decompress: CRCDecompress},
 	"gzip": {Name: "gzip", Compress: GzipCompress, Decompress: GzipDecompress},
 	"rev":  {Name: "rev", Compress: RevCompress, Decompress: RevDecompress},
 	"rle":  {Name: "rle", Compress: RLECompress, Decompress: RLEDecompress},
